@@ -190,7 +190,10 @@ class ASTCFG(dict[str, WritableASTBlock]):
         """Prune empty blocks from the CFG."""
         empty = set()
         for name, block in list(self.items()):
-            if not block.instructions:
+            # The entry block is kept even if it is empty: if the function
+            # starts with a loop, its successor is a loop header, which must
+            # not become the entry of the CFG.
+            if not block.instructions and name != "0":
                 empty.add(self.pop(name))
                 # Empty blocks can only have a single jump target.
                 it = block.jump_targets[0]
@@ -867,7 +870,11 @@ class SCFG2ASTTransformer:
                 )
                 if_node = ast.If(test, body, orelse)
                 return block.tree[:-1] + [if_node]
-            elif block.fallthrough and type(block.tree[-1]) is ast.Return:
+            elif (
+                block.fallthrough
+                and block.tree
+                and type(block.tree[-1]) is ast.Return
+            ):
                 # The value of the ast.Return could be either None or an
                 # ast.AST type. In the case of None, this refers to a plain
                 # 'return', which is implicitly 'return None'. So, if it is
